@@ -11,7 +11,9 @@ Generates lean/CelloGen/Str.lean:
     `pos`, `off` (the value `format_to` returned) and `width` (format characters consumed by the branch), and the
     statement that takes the result of `show_to` in the `%$` branch; `posParams : Cello.Str.PosParams` bundling them;
     `printConvSet` — the `strchr` set that ends a specification.
-The theorems `C16_current_source`, `C16_current_source_positions` and `C16_source_shape_as_modelled` are stated about
+  * `lookParams : Cello.Str.LookParams` — String_Look: whether `String_Clear(self)` stands first, the opening / closing quote
+    tests, the escape lead and the escape switch as a table (case label -> bytes of the `$S("…")` appended).
+The theorems `C16_current_source`, `C16_current_source_positions`, `C16_look_current_source` and `C16_source_shape_as_modelled` are stated about
 these definitions.
 """
 import re
@@ -231,16 +233,28 @@ SHAPE_MODELLED = [
     ('String', ['Instance(New,String_New,String_Del)', 'Instance(Assign,String_Assign)', 'Instance(Cmp,String_Cmp)',
                 'Instance(Hash,String_Hash)', 'Instance(Len,String_Len)', 'Instance(Get,NULL,NULL,String_Mem,String_Rem)',
                 'Instance(Resize,String_Resize)', 'Instance(Concat,String_Concat,String_Concat)',
-                'Instance(C_Str,String_C_Str)', 'Instance(Format,String_Format_To,String_Format_From)']),
+                'Instance(C_Str,String_C_Str)', 'Instance(Format,String_Format_To,String_Format_From)',
+                'Instance(Show,String_Show,String_Look)']),
     # the generic entry points (src/Concat.c Resize.c Get.c Cmp.c Len.c): plain dispatch to the member
     ('append', ['method(self,Concat,append,obj);']), ('concat', ['method(self,Concat,concat,obj);']),
     ('resize', ['method(self,Resize,resize,n);']), ('mem', ['returnmethod(self,Get,mem,key);']),
     ('rem', ['method(self,Get,rem,key);']), ('len', ['returnmethod(self,Len,len);']),
     ('eq', ['returncmp(self,obj)is0;']),
+    # how an operand becomes a C string, how a String is made, copied and released (extension round: pinned, were trusted)
+    ('c_str', ['if(type_of(self)isString){return((structString*)self)->val;}returnmethod(self,C_Str,c_str);']),
+    ('String_C_Str', ['structString*s=self;returns->val;']),
+    ('String_New.body', ['structString*s=self;if(len(args)>0){String_Assign(self,get(args,$I(0)));}else{s->val=calloc(1,1);}#ifCELLO_MEMORY_CHECK==1if(s->valisNULL){throw(OutOfMemoryError,"Cannot allocate String, out of memory!");}#endif']),
+    ('String_Del', ['structString*s=self;#ifCELLO_ALLOC_CHECK==1if(header(self)->allocis(var)AllocStackorheader(self)->allocis(var)AllocStatic){throw(ValueError,"Cannot destruct String, not on heap!");}#endiffree(s->val);']),
+    ('assign', ['structAssign*a=instance(self,Assign);if(aanda->assign){a->assign(self,obj);returnself;}size_ts=size(type_of(self));if(type_of(self)istype_of(obj)ands){returnmemcpy(self,obj,s);}returnthrow(TypeError,"Cannotassigntype%stotype%s",type_of(obj),type_of(self));']),
+    ('copy', ['structCopy*c=instance(self,Copy);if(candc->copy){returnc->copy(self);}returnassign(alloc(type_of(self)),self);']),
     # what String_Format_To returns (the `off` of print_to_with), and the Show instances / entry points that the model of
     # the formatted-write path mirrors (Cello.Str.showVal, emit): whole bodies, white space outside literals removed
     ('String_Format_To.return', ['size', 'vsprintf(s->val+pos,fmt,va)']),
     ('String_Show', ['structString*s=self;pos=print_to(out,pos,"\\"",self);char*v=s->val;while(*v){switch(*v){case\'\\a\':pos=print_to(out,pos,"\\\\a");break;case\'\\b\':pos=print_to(out,pos,"\\\\b");break;case\'\\f\':pos=print_to(out,pos,"\\\\f");break;case\'\\n\':pos=print_to(out,pos,"\\\\n");break;case\'\\r\':pos=print_to(out,pos,"\\\\r");break;case\'\\t\':pos=print_to(out,pos,"\\\\t");break;case\'\\v\':pos=print_to(out,pos,"\\\\v");break;case\'\\\\\':pos=print_to(out,pos,"\\\\\\\\");break;case\'\\\'\':pos=print_to(out,pos,"\\\\\'");break;case\'\\"\':pos=print_to(out,pos,"\\\\\\"");break;case\'\\?\':pos=print_to(out,pos,"\\\\?");break;default:pos=print_to(out,pos,"%c",$I(*v));}v++;}returnprint_to(out,pos,"\\"",self);']),
+    # String_Look (the Look member of Show): whole body; its quote / escape characters, escape table and the place of String_Clear are
+    # ALSO extracted as terms (`lookParams`), which the model `Cello.Str.look` consumes
+    ('String_Look', ['String_Clear(self);varchr=$I(0);pos=scan_from(input,pos,"%c",chr);if(c_int(chr)isnt\'\\"\'){throw(FormatError,"String literal does not start with quotation marks!");}while(true){pos=scan_from(input,pos,"%c",chr);if(c_int(chr)==\'"\'){break;}if(c_int(chr)==\'\\\\\'){pos=scan_from(input,pos,"%c",chr);switch(c_int(chr)){case\'a\':String_Concat(self,$S("\\a"));break;case\'b\':String_Concat(self,$S("\\b"));break;case\'f\':String_Concat(self,$S("\\f"));break;case\'n\':String_Concat(self,$S("\\n"));break;case\'r\':String_Concat(self,$S("\\r"));break;case\'t\':String_Concat(self,$S("\\t"));break;case\'v\':String_Concat(self,$S("\\v"));break;case\'\\\\\':String_Concat(self,$S("\\\\"));break;case\'\\\'\':String_Concat(self,$S("\\\'"));break;case\'"\':String_Concat(self,$S("\\""));break;case\'?\':String_Concat(self,$S("\\?"));break;default:throw(FormatError,"Unknown Escape Sequence \'\\\\%c\'!",chr);}continue;}charbuffer[2];buffer[0]=(char)c_int(chr);buffer[1]=\'\\0\';String_Concat(self,$S(buffer));}returnpos;']),
+    ('look_from', ['returnmethod(self,Show,look,input,pos);']),
     ('Int_Show', ['returnprint_to(output,pos,"%li",self);']),
     ('Tuple_Show', ['structTuple*t=self;pos=print_to(output,pos,"tuple(",self);size_ti=0;while(t->items[i]isntTerminal){pos=print_to(output,pos,"%$",t->items[i]);if(t->items[i+1]isntTerminal){pos=print_to(output,pos,", ");}i++;}returnprint_to(output,pos,")");']),
     ('show_to', ['if(selfisNULL){returnprint_to(out,pos,"<NULL>");}structShow*s=instance(self,Show);if(sands->show){returns->show(self,out,pos);}returnprint_to(out,pos,"<\'%s\' At 0x%p>",type_of(self),self);']),
@@ -248,9 +262,74 @@ SHAPE_MODELLED = [
     ('format_to_va', ['returnmethod(self,Format,format_to,pos,fmt,va);']),
     ('print_to', ['print_to_with(out,pos,fmt,tuple(__VA_ARGS__))']),
 ]
-WHOLE = {'String_Show': 'String.c', 'Int_Show': 'Num.c', 'Tuple_Show': 'Tuple.c', 'show_to': 'Show.c', 'format_to': 'Show.c',
+WHOLE = {'String_Show': 'String.c', 'String_Look': 'String.c', 'look_from': 'Show.c', 'c_str': 'String.c', 'String_C_Str': 'String.c',
+         'String_New.body': 'String.c', 'String_Del': 'String.c', 'Int_Show': 'Num.c', 'Tuple_Show': 'Tuple.c', 'show_to': 'Show.c', 'format_to': 'Show.c',
          'format_to_va': 'Show.c'}
-GENERIC = {'append': 'Concat.c', 'concat': 'Concat.c', 'resize': 'Resize.c', 'mem': 'Get.c', 'rem': 'Get.c', 'len': 'Len.c', 'eq': 'Cmp.c'}
+GENERIC = {'append': 'Concat.c', 'concat': 'Concat.c', 'resize': 'Resize.c', 'mem': 'Get.c', 'rem': 'Get.c', 'len': 'Len.c', 'eq': 'Cmp.c', 'assign': 'Assign.c', 'copy': 'Alloc.c'}
+
+C_ESC = {'a': 7, 'b': 8, 'f': 12, 'n': 10, 'r': 13, 't': 9, 'v': 11, '\\': 92, "'": 39, '"': 34, '?': 63}
+
+def c_bytes(lit, what):
+    """bytes of the inside of a C character / string literal (simple escapes only; no NUL)"""
+    out = []; i = 0
+    while i < len(lit):
+        if lit[i] == '\\':
+            if i + 1 >= len(lit) or lit[i + 1] not in C_ESC: raise ExtractError(f'{what}: escape `{lit[i:i+2]}` not understood')
+            out.append(C_ESC[lit[i + 1]]); i += 2
+        else:
+            if ord(lit[i]) == 0 or ord(lit[i]) > 255: raise ExtractError(f'{what}: character `{lit[i]}`')
+            out.append(ord(lit[i])); i += 1
+    return out
+
+def look_params(src):
+    """String_Look: where String_Clear stands, the quote tests, the escape lead and the escape table (letter -> text appended)"""
+    body = def_body(src, 'String_Look', 'String.c')
+    if '#' in body: raise ExtractError('String_Look: preprocessor conditionals inside the body')
+    flat = nows_code(body)
+    CH = r"'((?:\\.|[^'\\]))'"
+    clears_first = flat.startswith('String_Clear(self);')
+    if flat.count('String_Clear(') != (1 if clears_first else 0) and not clears_first:
+        raise ExtractError('String_Look: String_Clear is called, but not as the first statement')
+    reads = re.findall(r'(\w+)?=?scan_from\(input,pos,"%c",chr\)', flat)
+    if len(re.findall(r'pos=scan_from\(input,pos,"%c",chr\);', flat)) != 3 or flat.count('scan_from(') != 3:
+        raise ExtractError('String_Look: expected exactly three `pos = scan_from(input, pos, "%c", chr);`')
+    mo = re.findall(r'if\(c_int\(chr\)isnt' + CH + r'\)\{throw\(FormatError,', flat)
+    mc = re.findall(r'if\(c_int\(chr\)==' + CH + r'\)\{break;\}', flat)
+    ml = re.findall(r'if\(c_int\(chr\)==' + CH + r'\)\{pos=scan_from\(input,pos,"%c",chr\);switch\(c_int\(chr\)\)\{', flat)
+    if len(mo) != 1 or len(mc) != 1 or len(ml) != 1:
+        raise ExtractError(f'String_Look: opening-quote test / closing-quote test / escape lead found {len(mo)}/{len(mc)}/{len(ml)} times (1 each expected)')
+    k = flat.index('switch(c_int(chr)){'); kend = balanced(flat, k + len('switch(c_int(chr))'), '{', '}')
+    sw = flat[k + len('switch(c_int(chr)){'):kend - 1]
+    cases = re.findall(r'case' + CH + r':String_Concat\(self,\$S\("((?:\\.|[^"\\])*)"\)\);break;', sw)
+    rest = re.sub(r'case' + CH + r':String_Concat\(self,\$S\("((?:\\.|[^"\\])*)"\)\);break;', '', sw)
+    if not re.fullmatch(r'default:throw\(FormatError,"(?:\\.|[^"\\])*",chr\);', rest):
+        raise ExtractError(f'String_Look: the escape switch has something besides `case c: String_Concat(self, $S("…")); break;` and a throwing default: `{rest[:80]}`')
+    if not flat[kend:].startswith('continue;}charbuffer[2];buffer[0]=(char)c_int(chr);buffer[1]=\'\\0\';String_Concat(self,$S(buffer));}returnpos;'):
+        raise ExtractError('String_Look: after the escape switch: expected `continue; }` then the one-character buffer appended with String_Concat, then `return pos;`')
+    one = lambda lit, what: (c_bytes(lit, what) if len(c_bytes(lit, what)) == 1 else (_ for _ in ()).throw(ExtractError(f'{what}: not one character')))[0]
+    esc = [(one(c, 'String_Look case label'), c_bytes(t, 'String_Look escape text')) for c, t in cases]
+    if len({c for c, _ in esc}) != len(esc): raise ExtractError('String_Look: duplicate case label')
+    return clears_first, one(mo[0], 'opening quote'), one(mc[0], 'closing quote'), one(ml[0], 'escape lead'), esc
+
+GUARD_RE = re.compile(r'if\s*\(\s*header\(self\)->alloc\s+is\s+\(var\)AllocStack\s+or\s+header\(self\)->alloc\s+is\s+\(var\)AllocStatic\s*\)\s*\{\s*throw\s*\(\s*ValueError\s*,')
+
+def guard_params(src):
+    """per reallocating function: the CELLO_ALLOC_CHECK test (`AllocStack or AllocStatic -> throw(ValueError`) is present and stands before
+    the first realloc( / free( of the (preprocessed) body; String_Assign: the `val is s->val` return stands before it"""
+    out = {}
+    for key, fn in (('assign', 'String_Assign'), ('clear', 'String_Clear'), ('concat', 'String_Concat'), ('resize', 'String_Resize'),
+                    ('format', 'String_Format_To'), ('del', 'String_Del')):
+        body = preprocess(func_body(src, fn))
+        g = GUARD_RE.search(body); r = re.search(r'\b(realloc|free)\s*\(', body)
+        if not r: raise ExtractError(f'{fn}: no realloc( / free( found')
+        if len(GUARD_RE.findall(body)) > 1: raise ExtractError(f'{fn}: more than one alloc check')
+        out[key] = bool(g) and g.start() < r.start()
+        if fn == 'String_Assign':
+            e = re.search(r'if\s*\(\s*val\s+is\s+s->val\s*\)\s*\{\s*return\s*;\s*\}', body)
+            out['assignSelfFirst'] = bool(e) and (not g or e.start() < g.start()) and e.start() < r.start()
+    body = preprocess(func_body(src, 'String_Rem'))
+    if GUARD_RE.search(body) or re.search(r'\b(realloc|free)\s*\(', body): raise ExtractError('String_Rem: an alloc check / realloc / free (modelled: memmove in place)')
+    return out
 
 def gen_str(repo):
     src = read(f'{repo}/src/String.c')
@@ -261,7 +340,7 @@ def gen_str(repo):
             m = re.search(r'var\s+String\s*=\s*Cello\s*\(', src)
             if not m: raise ExtractError('`var String = Cello(String, …)` not found')
             inner = src[m.end():balanced(src, m.end() - 1) - 1]
-            shape.append((fn, [nows(x) for x in split_top(inner) if nows(x).startswith('Instance(') and not re.match(r'Instance\((Doc|Show),', nows(x))]))
+            shape.append((fn, [nows(x) for x in split_top(inner) if nows(x).startswith('Instance(') and not re.match(r'Instance\((Doc),', nows(x))]))
             continue
         if fn == 'String_Format_To.return':
             shape.append((fn, [nows(r) for r in re.findall(r'\breturn\s+([^;]+);', bodies['String_Format_To'])]))
@@ -274,7 +353,7 @@ def gen_str(repo):
             continue
         if fn in WHOLE:
             wsrc = read(f'{repo}/src/{WHOLE[fn]}')
-            shape.append((fn, [nows_code(def_body(wsrc, fn, WHOLE[fn]))]))
+            shape.append((fn, [nows_code(def_body(wsrc, fn.split('.')[0], WHOLE[fn]))]))
             continue
         if fn in GENERIC:
             gsrc = read(f'{repo}/src/{GENERIC[fn]}')
@@ -315,6 +394,9 @@ def gen_str(repo):
     sr = dict(shape)['String_Resize']; ri = sr.index(find('String_Resize', 'realloc('))
     resize_checks_first = ri + 1 < len(sr) and sr[ri + 1] == OOM
     pos, pos_txt, conv = positions(repo)
+    lk_clear, lk_qo, lk_qc, lk_lead, lk_esc = look_params(src)
+    gp = guard_params(src); B = lambda v: 'true' if v else 'false'
+    lk_esc_lean = lean_list([f'({c}, {lean_list([str(b) for b in t])})' for c, t in lk_esc])
     def shape_lean(sh):
         return lean_list(['(' + lean_str(fn) + ', ' + lean_list([lean_str(c) for c in cs]) + ')' for fn, cs in sh])
     adv_defs = '\n'.join(
@@ -322,6 +404,8 @@ def gen_str(repo):
         for br, what in (('Lit', 'literal run'), ('Pct', '`%%`'), ('Str', '`%s`'), ('Int', '`%d %i %o %u %x %X`'),
                          ('Flt', '`%f %e %g %a`'), ('Chr', '`%c`'), ('Ptr', '`%p`')))
     return HEADER + f"""import Cello.Str
+import Cello.StrLook
+import Cello.StrRecv
 set_option linter.unusedVariables false
 namespace CelloGen.Str
 
@@ -361,6 +445,18 @@ def posParams : Cello.Str.PosParams :=
 
 /-- the `strchr` set that ends a specification in `print_to_with` -/
 def printConvSet : List UInt8 := {lean_list([str(c) for c in conv])}
+
+/-- `String_Look`: `String_Clear(self);` is its first statement; the quote tests, the escape lead, and the escape `switch`
+    (`case c: String_Concat(self, $S("…")); break;` as (c, bytes appended)) -/
+def lookParams : Cello.Str.LookParams :=
+  {{ clearsFirst := {'true' if lk_clear else 'false'}, quoteOpen := {lk_qo}, quoteClose := {lk_qc}, escLead := {lk_lead},
+     escapes := {lk_esc_lean} }}
+
+/-- per reallocating function of src/String.c: `if (header(self)->alloc is (var)AllocStack or … AllocStatic) {{ throw(ValueError, …` is there and
+    stands before the first `realloc(` / `free(`; `assignSelfFirst`: String_Assign's `if (val is s->val) {{ return; }}` stands before it -/
+def guardParams : Cello.Str.GuardParams :=
+  {{ assign := {B(gp['assign'])}, clear := {B(gp['clear'])}, concat := {B(gp['concat'])}, resize := {B(gp['resize'])},
+     format := {B(gp['format'])}, del := {B(gp['del'])}, assignSelfFirst := {B(gp['assignSelfFirst'])} }}
 
 /-- libc calls / terminator stores of each modelled function, in source order (whitespace removed) -/
 def shape : List (String × List String) := {shape_lean(shape)}
